@@ -15,9 +15,9 @@ SPEC = {
         "non-dependency / unparsable labels, multi-output and non-binary misuse are rejected (C37_reject_*), and paths "
         "made of ordinary characters and the characters quote reacts to are exactly one shell word each "
         "(C37_one_word_partial, C37_words_partial). REPAIRED in /repo and now proved in full: single-output "
-        "sequences reject a target without outputs (C37_reject_zero, C37_single_output_exact; fix 45b862e), $(dir) is never "
-        "empty (C37_dir_full; fix ddddbe1), an entry point of a tool is its absolute path (C37_tool_entry_point_abs; fix "
-        "2c9bf67). PARTIAL: two clauses remain false, each with a kernel-checked witness and a narrow known-finding class "
+        "sequences reject a target without outputs (C37_reject_zero, C37_single_output_exact; fix d6adec5), $(dir) is never "
+        "empty (C37_dir_full; fix 3a89ce0), an entry point of a tool is its absolute path (C37_tool_entry_point_abs; fix "
+        "b087314). PARTIAL: two clauses remain false, each with a kernel-checked witness and a narrow known-finding class "
         "(quote misses space/quote/$/backtick/glob characters; plain names are not checked against the sources). The shell grammar is a "
         "POSIX subset (no expansions: they are classified as 'not one literal word')."
     ),
@@ -63,6 +63,6 @@ M5 replaceSequenceLabel: target.IsTool(label) -> false       exit 1: 20 disagree
                                                              relative path "b" instead of <root>/plz-out/bin/b), `accepted-tool-at-test-time`
 H1 harmless: rename outputBuilder -> sb, reorder the atoms of the not-executable guard      exit 0 (facts regenerated identically:
                                                              the guard atoms are sorted, locals are not facts)
-Fix phase: with 45b862e / ddddbe1 / 2c9bf67 in /repo, reverting 45b862e on a scratch copy gives exit 1,
+Fix phase: with d6adec5 / 3a89ce0 / b087314 in /repo, reverting d6adec5 on a scratch copy gives exit 1,
 `VIOLATION … violation-single-output-sequence-accepts-zero-outputs.json`, 21 disagreements, guard fact and skeleton flipped.
 """
